@@ -15,6 +15,7 @@
   `resolve_terminates` / `resolve_terminates_flat_partial`, `resolve_refines_evalT`.
 -/
 import YtkProofs.Resolver
+import YtkProofs.ResolverSem
 
 namespace Ytk.C11
 open Ytk.Resolver
@@ -133,6 +134,45 @@ theorem resolve_text_preserved {t₁ s t₂ : Toks} {seen : List Toks} {r : Res}
   rw [resolve_text_prepend norm n tbl _ seen h₁,
     resolve_fuel_mono norm tbl (Nat.le_succ n) _ _ (by rw [hn]; exact hr), hn]
 
+/-! ## circular references are true cycles (`Reaches`, `Dep`: YtkProofs/ResolverSem.lean) -/
+
+/-- `cycle o` is returned only if the scanner arrives at a placeholder with text `o` while a
+    placeholder with text `o` is still being expanded (`o` on the expansion stack) — for every
+    fuel, stack, table and `norm`.  `Reaches` never looks at how often a text occurs: its stack
+    is extended exactly for the expansion of a placeholder's key part and value, and is back to
+    the old stack behind the placeholder. -/
+theorem cycle_only_if_onStack (n : Nat) (s : Toks) (seen : List Toks) (o : Toks)
+    (h : resolve norm n tbl s seen = .cycle o) : Reaches norm tbl seen s o :=
+  reaches_of_cycle n s seen o h
+
+/-- conversely, with enough fuel a placeholder met on the stack is reported (and stays reported
+    for every larger fuel) -/
+theorem cycle_if_onStack {s : Toks} {seen : List Toks} {o : Toks} (h : Reaches norm tbl seen s o) :
+    ∃ n, ∀ m, n ≤ m → resolve norm m tbl s seen = .cycle o :=
+  (cycle_of_reaches h).fuel
+
+/-- `cycle_iff_onStack` of DESIGN §6 (the fuel is quantified: for a FIXED fuel the direction
+    from right to left is false, small fuel gives `outOfFuel`). -/
+theorem cycle_iff_onStack (s : Toks) (seen : List Toks) (o : Toks) :
+    (∃ n, resolve norm n tbl s seen = .cycle o) ↔ Reaches norm tbl seen s o :=
+  ⟨fun ⟨n, h⟩ => reaches_of_cycle n s seen o h, fun h => ⟨_, (cycle_of_reaches h).choose_spec.1⟩⟩
+
+/-- True cycles only, in terms of the dependency relation between placeholder texts
+    (`Dep p q`: `q` is a placeholder in the text `p` or in the value / default `p` is replaced by):
+    a circular reference reported by `Resolve(s)` (empty initial stack) names a text `o` that is
+    reached from a placeholder of `s` and DEPENDS ON ITSELF through at least one expansion step. -/
+theorem cycle_is_true_cycle (n : Nat) (s o : Toks) (h : resolveTop norm n tbl s = .cycle o) :
+    (∃ p, TopPh s p ∧ (p = o ∨ Relation.TransGen (Dep norm tbl) p o)) ∧
+      Relation.TransGen (Dep norm tbl) o o := by
+  obtain ⟨p, hp, hpo, hc⟩ := reaches_dep (reaches_of_cycle n s [] o h)
+  exact ⟨⟨p, hp, hpo⟩, by simpa using hc⟩
+
+/-- the same for an arbitrary initial stack: on the stack already, or a true cycle -/
+theorem cycle_onStack_or_true_cycle (n : Nat) (s : Toks) (seen : List Toks) (o : Toks)
+    (h : resolve norm n tbl s seen = .cycle o) :
+    o ∈ seen ∨ Relation.TransGen (Dep norm tbl) o o :=
+  (reaches_dep (reaches_of_cycle n s seen o h)).choose_spec.2.2
+
 /-! ## Non-vacuity and witnesses (norm = id) -/
 
 def tA : Toks := [.ch 'a']
@@ -163,6 +203,19 @@ theorem nonvacuous_case_table :
 theorem nonvacuous_balanced : Balanced (phA ++ .ch '-' :: phA) ∧ ¬ Balanced [.pre, .ch 'a'] ∧
     Resolves id [(tA, [.ch '1'])] phA [] (.ok [.ch '1']) := by
   refine ⟨by decide, by decide, ⟨5, by decide, by simp⟩⟩
+
+/-- `Reaches` holds on the true cycle a = `${a}` … -/
+theorem nonvacuous_reaches : Reaches id [(tA, phA)] [] phA tA :=
+  cycle_only_if_onStack id _ 10 phA [] tA (by decide)
+
+/-- … and on no text at all for the doubled placeholder `${a}-${a}` with a = 1 -/
+theorem nonvacuous_dup_not_reaches (o : Toks) :
+    ¬ Reaches id [(tA, [.ch '1'])] [] (phA ++ .ch '-' :: phA) o := by
+  intro h
+  have h₁ := cycle_of_reaches h
+  have h₂ : Resolves id [(tA, [.ch '1'])] (phA ++ .ch '-' :: phA) [] (.ok [.ch '1', .ch '-', .ch '1']) :=
+    ⟨10, by decide, by simp⟩
+  cases h₁.unique h₂
 
 /-
   STATED, NOT PROVED (DESIGN §6 C11) — covered by the harness only (exhaustive token strings
